@@ -33,9 +33,11 @@ type Path struct {
 	asserts int
 	steps   int
 	// small-domain tracking
-	dom      map[int]*[4]uint64 // var id -> allowed values bitset (8-bit vars)
-	nonUnary map[int]bool       // var id occurs in a non-unary conjunct
-	depth    int
+	dom       map[int]*[4]uint64 // var id -> allowed values bitset (8-bit vars)
+	nonUnary  map[int]bool       // var id occurs in a non-unary conjunct
+	depth     int
+	guardViol []string
+	uncertain bool // some branch on this path was kept although the solver could not decide it
 }
 
 type inputRec struct {
@@ -49,8 +51,11 @@ type faultRec struct {
 	msg  string
 }
 
+var fallbackSolver string
+
 type Explorer struct {
 	solver       *Solver
+	solver2      *Solver
 	work         []workItem
 	cache        map[string]cacheEnt
 	unaryCache   map[int]*[4]uint64
@@ -66,22 +71,23 @@ type cacheEnt struct {
 }
 
 type Stats struct {
-	Paths          int            `json:"paths"`
-	Ends           map[string]int `json:"path_ends"`
-	Decisions      int            `json:"symbolic_branch_decisions"`
-	WitnessHits    int            `json:"feasible_by_witness"`
-	DomainDecided  int            `json:"feasible_by_small_domain_eval"`
-	SolverFeas     int            `json:"feasibility_queries"`
-	CacheHits      int            `json:"query_cache_hits"`
-	AssertQueries  int            `json:"assert_queries"`
-	AssertUnsat    int            `json:"assert_unsat"`
-	AssertSat      int            `json:"assert_sat"`
-	AssertUnknown  int            `json:"assert_unknown"`
-	AssertFolded   int            `json:"assert_true_by_term_identity"`
-	FeasUnknown    int            `json:"feasibility_unknown_branch_kept"`
-	Unsupported    map[string]int `json:"unsupported"`
-	UnwindExceeded int            `json:"unwind_exceeded"`
-	Steps          int64          `json:"ssa_instructions_executed"`
+	Paths           int            `json:"paths"`
+	Ends            map[string]int `json:"path_ends"`
+	Decisions       int            `json:"symbolic_branch_decisions"`
+	WitnessHits     int            `json:"feasible_by_witness"`
+	DomainDecided   int            `json:"feasible_by_small_domain_eval"`
+	SolverFeas      int            `json:"feasibility_queries"`
+	CacheHits       int            `json:"query_cache_hits"`
+	AssertQueries   int            `json:"assert_queries"`
+	AssertUnsat     int            `json:"assert_unsat"`
+	AssertSat       int            `json:"assert_sat"`
+	AssertUnknown   int            `json:"assert_unknown"`
+	AssertFolded    int            `json:"assert_true_by_term_identity"`
+	FeasUnknown     int            `json:"feasibility_unknown_branch_kept"`
+	FallbackDecided int            `json:"decided_by_fallback_solver"`
+	Unsupported     map[string]int `json:"unsupported"`
+	UnwindExceeded  int            `json:"unwind_exceeded"`
+	Steps           int64          `json:"ssa_instructions_executed"`
 }
 
 func newExplorer(s *Solver) *Explorer {
@@ -251,6 +257,18 @@ func (ex *Explorer) cachedCheck(asserts []*Term, counter *int) (string, Model) {
 	}
 	*counter++
 	res, m := ex.solver.check(asserts)
+	if res == "unknown" && fallbackSolver != "" {
+		// second opinion from another solver (non-linear integer queries)
+		if ex.solver2 == nil {
+			ex.solver2, _ = startSolver(fallbackSolver, ex.solver.timeout)
+		}
+		if ex.solver2 != nil {
+			res, m = ex.solver2.check(asserts)
+			if res != "unknown" {
+				ex.stats.FallbackDecided++
+			}
+		}
+	}
 	ex.cache[key] = cacheEnt{res, m}
 	return res, m
 }
@@ -285,6 +303,7 @@ func (ex *Explorer) choose(p *Path, alts []*Term) int {
 			m = p.model // unknown: keep the branch, model may be stale
 			ex.feasTimeouts++
 			ex.stats.FeasUnknown++
+			p.uncertain = true
 		}
 		if first < 0 {
 			first, firstModel = k, m
